@@ -170,9 +170,9 @@ def process_unit(name, canary, bdir):
     try:
         externs = ensure_externs(unit.get('externs', []))
         text, origins, ex, contracted = extract.build_unit(unit, REPO, udir, canary=False)
-    except ExtractError as e:
+    except Exception as e:
         ur.status = 'undecided'
-        ur.reason = 'extraction: %s' % e
+        ur.reason = 'extraction: %s%s' % ('' if isinstance(e, ExtractError) else type(e).__name__ + ': ', e)
         ur.contracted = []
         ur.rewrites = []
         ur.fn_hashes = {}
